@@ -19,7 +19,11 @@ vars == <<l, base>>
 
 AbsI_(x) == IF x < 0 THEN -x ELSE x
 Sentinel == 2147483647                      \* non-finite or out-of-range value
-CloseV(a, b) == a # Sentinel /\ b # Sentinel /\ AbsI_(a - b) <= 2 + (AbsI_(b) \div 32768)
+\* class codes of the models whose samples hold non-finite features (recorder: classifyNonFinite): NaN, -Inf, +Inf.  A result of
+\* one class in one batch composition is of that class in every other; NaN sign and payload are not compared.
+ClassCode(a) == a >= 2147483644 /\ a < Sentinel
+CloseV(a, b) == /\ a # Sentinel /\ b # Sentinel
+                /\ IF ClassCode(a) \/ ClassCode(b) THEN a = b ELSE AbsI_(a - b) <= 2 + (AbsI_(b) \div 32768)
 CloseRow(a, b) == Len(a) = Len(b) /\ \A j \in 1..Len(a) : CloseV(a[j], b[j])
 
 Init == l = 1 /\ base = [model |-> "", rows |-> <<>>]
